@@ -156,11 +156,12 @@ def _arm_call(stmts):
     if len(rets) != 1 or rets[0].value is None:
         return None
     v = rets[0].value
+    # argument *values* in call order (whether they are passed by position or by keyword)
     if isinstance(v, ast.Call) and isinstance(v.func, ast.Call):
         inner = v.func
-        return ast.unparse(inner.func), [ast.unparse(a) for a in inner.args] + ["%s=%s" % (k.arg, ast.unparse(k.value)) for k in inner.keywords], inner
+        return ast.unparse(inner.func), [ast.unparse(a) for a in inner.args] + [ast.unparse(k.value) for k in inner.keywords], inner
     if isinstance(v, ast.Call):
-        return ast.unparse(v.func), [ast.unparse(a) for a in v.args] + ["%s=%s" % (k.arg, ast.unparse(k.value)) for k in v.keywords], v
+        return ast.unparse(v.func), [ast.unparse(a) for a in v.args] + [ast.unparse(k.value) for k in v.keywords], v
     return None
 
 
@@ -309,8 +310,16 @@ def rule_ag3_small(ctx: Ctx):
                 return rd[0].result, has, e
         return rd[0].result, None, None
 
+    # the closure variable that remembers the previous item: the one the plain handler rebinds
+    prev_names = set()
+    for p in ctx.paths(sobs, None, {}):
+        prev_names |= {e.name for e in p.trace if e.k == "nonlocal"}
+    if len(prev_names) != 1:
+        raise AnalysisError("assert_1 plain arm: expected one closure variable holding the previous item, found %s" % sorted(prev_names))
+    prev_name = next(iter(prev_names))
+
     def prev_obs(p):
-        last = ("free", "last")
+        last = ("free", prev_name)
         for e in p.trace:
             if e.k == "decision" and e.test[0] == "cmp" and any(x[:2] == last for x in (e.test[2], e.test[3]) if len(x) >= 2):
                 prev = e.test[2] if e.test[2][:2] == last else e.test[3]
